@@ -47,6 +47,7 @@ type originLog struct {
 	Tag       string `json:"tag,omitempty"`
 	UnknownURI bool  `json:"unknown,omitempty"`
 	WallMs    int64  `json:"wall_ms"`
+	StartUs   int64  `json:"start_us"` // arrival time (µs since the origin started); data for rate monitors, never a deadline
 }
 
 type origin struct {
@@ -119,7 +120,7 @@ func (o *origin) handle(w http.ResponseWriter, req *http.Request) {
 	r, ok := o.routes[key]
 	o.hits[key]++
 	hit := o.hits[key]
-	entry := &originLog{ID: o.nextID.Add(1), StartSeq: o.seq(), Host: req.Host, URI: uri, URL: "http://" + req.Host + uri}
+	entry := &originLog{ID: o.nextID.Add(1), StartSeq: o.seq(), Host: req.Host, URI: uri, URL: "http://" + req.Host + uri, StartUs: time.Since(o.start).Microseconds()}
 	o.log = append(o.log, entry)
 	o.mu.Unlock()
 	finish := func(status int, ent []byte, completed, reset bool) {
